@@ -79,6 +79,7 @@ type pending struct {
 	path      string
 	done      bool
 	host      string
+	host0     string
 	kindName  string
 	plantedTsr []KV
 }
@@ -182,6 +183,28 @@ func (s *scen) plan(kind string) *pending {
 		return p
 	}
 	r := hx.Pick(b.rnd, cands)
+	if kind == "prefixmiss" {
+		// walks into the route's branch but does not match it (for an infix catch-all: the scan runs out of segments)
+		p.method = r.method
+		switch r.t.name {
+		case "infix":
+			p.path = fmt.Sprintf("/i%d/%s/deep/%s", r.i, vals[0], vals[1])
+		case "catchall":
+			p.path = fmt.Sprintf("/c%d", r.i)
+		default:
+			p.path = r.t.path(r.i, vals) + "/zz/" + vals[2]
+		}
+		if r.t.host != nil {
+			p.host = r.t.host(r.i, vals)
+		}
+		p.host0 = p.host
+		if p.host == "" {
+			p.host = "h-" + p.tok + ".test"
+		}
+		s.oracle(p)
+		p.host = p.host0
+		return p
+	}
 	if kind == "hostfail" {
 		var hs []*rt
 		for _, c := range s.routes {
